@@ -44,7 +44,9 @@ AllocBegin ==
 \* the window is walked (bottom-up in the pinned tree) is the implementation's business.
 Try ==
   /\ Step("Try") /\ s.phase = "loop"
-  /\ Le(s.lo, Ev.hint) /\ Le(Ev.hint, s.hi)
+  \* the window at page granularity: a hint may be the page that holds sat_sub(src, r) (the kernel rounds hints down anyway;
+  \* a refactor that aligned its hints itself raised a false alarm while this rule compared bytes)
+  /\ Le(PageAlign(s.lo), Ev.hint) /\ Le(Ev.hint, s.hi)
   /\ (s.last # <<>> => Low12Equal(Ev.hint, s.last))      \* page steps (whatever end of the window the walk started from)
   /\ Ev.hint \notin s.tried
   /\ s' = [s EXCEPT !.last = Ev.hint, !.tried = @ \cup {Ev.hint}, !.phase = IF Ev.ok THEN "held" ELSE "loop",
